@@ -67,6 +67,10 @@ impl InputEvent {
         &self.event
     }
 
+    pub fn is_empty_element(&self) -> bool {
+        matches!(&self.event, Event::Empty(_))
+    }
+
     pub fn is_comment(&self) -> bool {
         matches!(&self.event, Event::Comment(_))
     }
